@@ -52,6 +52,10 @@ type eofGuardReader struct {
 
 type eofLoop struct{}
 
+const eofLoopText = "wiresim: decoder keeps reading past the end of the input"
+
+func (eofLoop) String() string { return eofLoopText }
+
 func (g *eofGuardReader) Read(p []byte) (int, error) {
 	n, err := g.r.Read(p)
 	if err == io.EOF {
